@@ -214,3 +214,16 @@ reg("C09",
          "through a stale lock file left at an untouched position. TLC and the JSON bridge are trusted.",
     technique="TLA+/TLC exhaustive model checking of serial and parallel paste machines + TLC-evaluated expectations at the real tile size replayed into the real code",
     design_ref="DESIGN.md 4.7, 4.8, 3 (M1, M4), 5/C09")
+
+reg("C06",
+    text="spec/SampleLayer.tla (over ToastLattice.tla): the leaves of the (filtered) pyramid are visited in any order, each writing - clobbering or read-modify-write updating - "
+         "the identity sampler's values at its own 2^K x 2^K pixel grid, rows reversed for bottom-up formats, all-undefined tiles not stored; TLC checks FinalOK / OnlyLeaves / "
+         "OwnPixels over every visiting order and pass list, T_Level0 (the whole-sphere tile's grid is the four level-1 grids side by side), and emits the final files. The closed "
+         "form 'file row fr, column c of tile (n,x,y) = centre of tile (n+K, 2^K x + c, 2^K y + display_row(fr))' is validated against every emitted file (K = 1, 2) and applied at "
+         "K = 8 through psi: the real sample_layer / sample_layer_filtered / Builder.toast_base run with smooth injective scalar and RGB samplers, npy / fits / png, both coordinate "
+         "systems, depths 0-3, serial, deterministic scheduler and real processes, clobber and update with complementary / overlapping masked passes; every tile is read back and all "
+         "65536 pixels compared with the sampler at the tile's own coordinates (exactly) and at psi (1e-9); the file set must be the spec's leaf set.",
+    note="Abstract machine exhaustive for <= 7 leaves per configuration (all visiting orders), K <= 2 (3 thorough). Real runs are a fixed list of configurations (about 25 quick), not "
+         "a product. psi is validated by C04/C05. png tiles are 8-bit RGB: the psi comparison allows one level, the comparison with the sampler at the real coordinates is exact.",
+    technique="TLA+/TLC model checking of the sampling machine on the lattice + TLC-emitted files validating the closed form that drives pixel-exact comparison of real sampled tiles",
+    design_ref="DESIGN.md 5/C06, 4.4")
